@@ -279,7 +279,7 @@ where
                         (format.0, "note: format given here"),
                     ]);
                 }
-                if max_clause.1 != num_clauses.1 - 1 {
+                if max_clause.1 + 1 != num_clauses.1 {
                     return fail_with_contexts([
                         (num_clauses.0, "number of clauses does not match"),
                         (max_clause.0, "note: maximal clause number given here"),
